@@ -7,6 +7,7 @@ the count bookkeeping of the source-to-sink plumbing.  Not decided: order and
 no-duplication over whole driver scripts as such (they follow from the
 invariant by induction)."""
 from .. import cast, sym, lin, front
+from .common import distinct_enums
 from ..sym import C, fmt, linearize as L
 from ..lin import Lin
 
@@ -579,6 +580,7 @@ def rule_h(ck, u, so, ub):
     OCT, CHK = E.get('DATA_KIND_OCTET'), E.get('DATA_KIND_CHUNK')
     if OCT is None or CHK is None:
         return ck.broken('C17.h', 'DataKind', '', 'enumerators not found')
+    distinct_enums(ck, u, 'C17.h', ('DATA_KIND_',), 'include/ufw/endpoints.h')
     eng = sym.Engine(u, sizeof=so, inline=set(), other_units=[ub])
     for fn, un, member, kindv in (('octet_source_init', 'source', 'octet', OCT), ('chunk_source_init', 'source', 'chunk', CHK),
                                   ('octet_sink_init', 'sink', 'octet', OCT), ('chunk_sink_init', 'sink', 'chunk', CHK)):
